@@ -68,6 +68,8 @@ PY
   go build -tags verif -overlay $B/overlay-sched.json -o $B/vcheck-sched ./cmd/vcheck || { echo "HARNESS-ERROR: scheduler harness build failed"; exit 2; }
   # free-running race-detector build of the CLI (auxiliary pass of C17: sampling, decides nothing by silence)
   (cd /repo && go build -race -o $B/git-sizer-race . ) || { echo "HARNESS-ERROR: -race build failed"; exit 2; }
+  # free-running race-detector build of a driver of the progress meter (auxiliary pass of C18)
+  go build -race -o $B/meterrace ./cmd/meterrace || { echo "HARNESS-ERROR: -race build of the meter driver failed"; exit 2; }
 fi
 if [ "$what" = all ] || [ "$what" = fakegit ]; then
   go build -o $B/fakegit/git ./cmd/fakegit || { echo "HARNESS-ERROR: fakegit build failed"; exit 2; }
